@@ -24,6 +24,7 @@ type c17Case struct {
 	Text   string `json:"text,omitempty"`
 	Offset int    `json:"offset,omitempty"`
 	Chain  []int  `json:"chain,omitempty"`
+	Msg    int    `json:"message_index,omitempty"`
 }
 
 // scanLnCol: independent line / 1-based byte column of an offset.
@@ -156,8 +157,8 @@ func c17Trees(w *run.Worker) {
 		fams = append(fams, pOpTrees(3))
 	}
 	gaps := map[int][]string{
-		rt.SiteAfterOp: {"\n", " # c\n  "}, rt.SiteAfterComma: {"\n\t"}, rt.SiteAfterOpen: {"\n"}, rt.SiteAfterColon: {"\n "},
-		rt.SiteBetween: {"\n\n", ";"}, rt.SiteSpace: {"  "},
+		rt.SiteAfterOp: {"\n", " # c\n  ", "\r\n"}, rt.SiteAfterComma: {"\n\t", "\r\n\t"}, rt.SiteAfterOpen: {"\n", "\r\n"}, rt.SiteAfterColon: {"\n "},
+		rt.SiteBetween: {"\n\n", ";", "\r\n", "\r\n\r\n"}, rt.SiteSpace: {"  ", "\r"},
 	}
 	for fi, f := range fams {
 		for i := int64(0); i < f.N; i++ {
@@ -195,7 +196,7 @@ func c17Trees(w *run.Worker) {
 
 // (B) the two position-lookup routines agree with an independent scan
 func c17Lookup(w *run.Worker) {
-	alpha := []string{"a", "\n", "é"}
+	alpha := []string{"a", "\n", "é", "\r"}
 	maxLen := 8
 	var rec func(cur string, n int)
 	check := func(text string) {
@@ -404,15 +405,16 @@ func c17ErrPos(e *errchain.PlError, src, name string) string {
 
 // (D) error chains: rendering, JSON round trip, Copy isolation
 func c17Chains(w *run.Worker) {
-	files := []string{"a.p", "dir/b.p"}
-	poss := []token.LnColPos{{Pos: 0, Ln: 1, Col: 1}, {Pos: 17, Ln: 3, Col: 4}, {Pos: -1, Ln: -1, Col: -1}}
+	files, poss := c17ChainFiles, c17ChainPoss
 	nopt := len(files) * len(poss)
 	for n := 1; n <= 4; n++ {
 		idx := make([]int, n)
 		for {
-			if w.Take() {
-				w.Eval()
-				c17OneChain(w, idx, files, poss)
+			for mi := range c17Messages {
+				if w.Take() {
+					w.Eval()
+					c17OneChain(w, idx, files, poss, mi)
+				}
 			}
 			j := n - 1
 			for ; j >= 0; j-- {
@@ -429,12 +431,21 @@ func c17Chains(w *run.Worker) {
 	}
 }
 
-func c17OneChain(w *run.Worker, idx []int, files []string, poss []token.LnColPos) {
-	mk := c17Case{Part: "chain", Chain: append([]int(nil), idx...)}
+var (
+	c17ChainFiles = []string{"a.p", "dir/b.p"}
+	c17ChainPoss  = []token.LnColPos{{Pos: 0, Ln: 1, Col: 1}, {Pos: 17, Ln: 3, Col: 4}, {Pos: -1, Ln: -1, Col: -1}}
+)
+
+// message texts: the rendering must reproduce them verbatim (format verbs, line breaks, quotes, empty)
+var c17Messages = []string{"boom: msg", "no pattern found for %{NAME}", "100% %d %s %v %!", "", "two\nlines", "é \"quoted\" \\ `x`", "%"}
+
+func c17OneChain(w *run.Worker, idx []int, files []string, poss []token.LnColPos, mi int) {
+	msg := c17Messages[mi]
+	mk := c17Case{Part: "chain", Chain: append([]int(nil), idx...), Msg: mi}
 	f := func(i int) (string, token.LnColPos) { return files[idx[i]%len(files)], poss[idx[i]/len(files)] }
 	f0, p0 := f(0)
-	e := errchain.NewErr(f0, p0, "boom: msg")
-	want := fmt.Sprintf("%s:%d:%d: boom: msg", f0, p0.Ln, p0.Col)
+	e := errchain.NewErr(f0, p0, msg)
+	want := fmt.Sprintf("%s:%d:%d: %s", f0, p0.Ln, p0.Col, msg)
 	for i := 1; i < len(idx); i++ {
 		fi, pi := f(i)
 		// append to a copy; the original must not change, even when its backing array has spare capacity
@@ -547,17 +558,31 @@ func c17Replay(raw json.RawMessage) (bool, string) {
 		}
 		return false, "position ok: " + v.Real.Err.Error()
 	}
-	return false, "chain cases are replayed by re-running the check"
+	if c.Part == "chain" && len(c.Chain) > 0 && c.Msg >= 0 && c.Msg < len(c17Messages) {
+		f := func(i int) (string, token.LnColPos) {
+			return c17ChainFiles[c.Chain[i]%len(c17ChainFiles)], c17ChainPoss[(c.Chain[i]/len(c17ChainFiles))%len(c17ChainPoss)]
+		}
+		f0, p0 := f(0)
+		e := errchain.NewErr(f0, p0, c17Messages[c.Msg])
+		want := fmt.Sprintf("%s:%d:%d: %s", f0, p0.Ln, p0.Col, c17Messages[c.Msg])
+		for i := 1; i < len(c.Chain); i++ {
+			fi, pi := f(i)
+			e = e.Copy().ChainAppend(fi, pi)
+			want += fmt.Sprintf("\n%s:%d:%d:", fi, pi.Ln, pi.Col)
+		}
+		return e.Error() != want, fmt.Sprintf("Error() = %q\nwant      %q", e.Error(), want)
+	}
+	return false, "unknown case"
 }
 
 func init() {
 	run.Register(&run.Check{
 		ID:    "C17",
 		Level: "model_checking",
-		Rule: "(A) every program of the C06 generator (all node kinds), preceded by a line containing a multi-byte rune, in base layout and with one layout insertion at every site: every position field of the parsed tree against the printer's token offset, line/column against an independent scan, StartPos() inside the node; " +
+		Rule: "(A) every program of the C06 generator (all node kinds), preceded by a line containing a multi-byte rune, in base layout and with one layout insertion (LF, CRLF, bare CR, comment, semicolon, blanks) at every site: every position field of the parsed tree against the printer's token offset, line/column against an independent scan, StartPos() inside the node; " +
 			"(B) all 9841 texts of length <=8 over {a, newline, é} x every offset -1..len+1: PosCache.LnCol == LnCol == independent scan, invalid offsets rejected; " +
 			"(C) 31 run-time faults x 16 syntactic roles x 4 nesting places: script name, 0 <= offset < len(source), offset inside the statement at fault, line/column consistent, chain = call sites; " +
-			"(D) all chains of 1..4 positions over 2 file names x 3 positions: Error() rendering, JSON round trip, Copy()+ChainAppend isolation (also with spare capacity)",
+			"(D) all chains of 1..4 positions over 2 file names x 3 positions x 7 message texts (format verbs, line breaks, quotes, empty): Error() rendering verbatim, JSON round trip, Copy()+ChainAppend isolation (also with spare capacity)",
 		Assumptions: []string{"load-time error positions are decided by C08 with the same offset oracle"},
 		Run:            c17Run,
 		Replay:         c17Replay,
